@@ -102,6 +102,69 @@ def run_update_multi(args):
     return {"err": err, "ran": sorted([list(k) + [v] for k, v in ran.items()]), "workers_used": sorted({c[1] for c in rec.calls if c[0] == "run"})}
 
 
+def run_update_variants(args):
+    """vm1 selected without a variant restriction (CentOS and Fedora): what was executed for each variant"""
+    fr, to, nets, seed = args
+    import collections
+    import logging
+    import random
+    logging.disable(logging.CRITICAL)
+    os.environ["HOME"] = os.path.join(os.environ.get("VERIF_WORK", "/tmp"), f"home-{os.getpid()}")
+    os.makedirs(os.environ["HOME"], exist_ok=True)
+    os.chdir(os.environ["HOME"])
+    from avocado_i2n import intertest_setup
+    config = toolseam.base_config({"vm1": ""}, nets, vms_params={"from_state_vm1": fr, "to_state_vm1": to})
+    config["available_vms"]["vm1"] = ""
+    with toolseam.Recorder(random.Random(seed)) as rec:
+        try:
+            intertest_setup.update(config, tag="1r")
+            err = None
+        except Exception as e:
+            err = type(e).__name__ + ": " + str(e)[:160]
+    ran = collections.Counter()
+    for c in rec.calls:
+        if c[0] == "run":
+            p = c[3]
+            if p.get("type") == "shared_configure_install":
+                continue
+            variant = next((v for v in ("CentOS", "Fedora") if f".{v}." in c[2]), "?")
+            sts = [v for k, v in p.items() if k.startswith("set_state") and not k.endswith("on_error") and v and v != "root"]
+            ran[(variant, sts[0] if sts else "leaf:" + c[2].split(".vms.")[0])] += 1
+    return {"err": err, "ran": sorted([list(k) + [v] for k, v in ran.items()])}
+
+
+def variants_part(ctx, replay, path_to):
+    """every variant of a vm selected without restriction gets exactly the requested path, once across the workers"""
+    rng = ctx.rng
+    if replay and "variants" in replay["data"]:
+        d = replay["data"]["variants"]
+        todo = [(d[0], d[1], d[2], replay["data"].get("seed", 1))]
+    elif replay:
+        return
+    else:
+        combos = [(fr, to, nets) for fr, to in (("customize", "linux_virtuser"), ("customize", "customize"), ("install", "customize"),
+                                                ("customize", "on_customize"), ("on_customize", "on_customize"))
+                  for nets in ("net1", "net1 net2")]
+        rng.shuffle(combos)
+        todo = [(fr, to, nets, rng.randrange(10 ** 6)) for fr, to, nets in combos[: (len(combos) if ctx.thorough else 3)]]
+    with concurrent.futures.ProcessPoolExecutor(max_workers=10) as ex:
+        outs = list(ex.map(run_update_variants, todo))
+    bad = []
+    for (fr, to, nets, seed), o in zip(todo, outs):
+        p = path_to(to)
+        seg = p[p.index(fr):] if fr in p else None
+        expect = sorted([v, st, 1] for v in ("CentOS", "Fedora") for st in (seg or []))
+        if o["err"] or seg is None or o["ran"] != expect:
+            bad.append(((fr, to, nets, seed), o, expect))
+    ctx.obligation("monitor:every-variant-gets-the-path-once", "monitor", not bad,
+                   f"{len(bad)} of {len(todo)} updates of an unrestricted vm1 (CentOS + Fedora) did not execute exactly the path once per variant")
+    for (fr, to, nets, seed), o, expect in bad[:1]:
+        ctx.fail("C15:update:variant-path", f"update of vm1 (all variants) from {fr} to {to} on {nets}: executions {o['ran']} instead of {expect}",
+                 {"variants": [fr, to, nets], "seed": seed, "impl": o, "expected": expect}, True)
+    ctx.count(len(todo), len(todo))
+    ctx.coverage["multi_variant_updates"] = [{"from": t[0], "to": t[1], "nets": t[2]} for t in todo]
+
+
 def multi_part(ctx, replay):
     rng = ctx.rng
     if replay and "multi" in replay["data"]:
@@ -146,6 +209,9 @@ def run(ctx, replay=None):
         while out[0] in parent:
             out.insert(0, parent[out[0]])
         return out
+    variants_part(ctx, replay, path_to)
+    if replay and "variants" in replay["data"]:
+        return
     states = [s for s in dag if not s.startswith("leaf:")]
     pairs = []
     for to in states:
